@@ -40,6 +40,9 @@ def setup(root, i):
     return g, Path(src), cdir, hp, m.dump(indent=None)
 
 
+DEEP = [False]
+
+
 def corruptions(data):
     out = [('empty', b''), ('garbage', b'\x00\xff garbage not a pickle'), ('text', b'hello\n'),
            ('wrong-object', pickle.dumps({'not': 'an item'})), ('wrong-object2', pickle.dumps(42)),
@@ -47,7 +50,16 @@ def corruptions(data):
            ('overwritten-head', b'\x80\x05' + b'X' * 20 + data[22:]),
            ('doubled', data + data), ('proto-only', data[:2])]
     n = len(data)
-    offs = list(range(0, min(n, 400))) + list(range(400, n, max(1, (n - 400) // 200 or 1)))
+    if DEEP[0]:
+        offs = list(range(0, n))                                  # every truncation offset
+        # (no bit flips: a flipped byte can leave a valid pickle of a different tree, which no crash, full disk or
+        # concurrent writer of the property's fault model produces and nothing short of a checksum could detect)
+        for k in range(1, n, 97):
+            out.append(('overwritten-head-at', data[:k] + data[:n - k]))   # a second write that died after k bytes ... of the same data
+        for k in range(0, n, 97):                                 # the tail of another write over the head of this one
+            out.append(('spliced', data[k:] + data[:k]))
+    else:
+        offs = list(range(0, min(n, 400))) + list(range(400, n, max(1, (n - 400) // 200 or 1)))
     for k in offs:
         out.append(('truncated', data[:k]))
     return out
@@ -237,26 +249,84 @@ def part3(root):
     return 2, fails
 
 
+def _hammer(args):
+    """One of two processes that parse the same files through the same cache directory again and again, each starting with
+    an empty memory cache every round, so that saves and loads of the two interleave on disk."""
+    root, who, rounds = args
+    import parso
+    from parso import cache as pc
+    from pathlib import Path
+    g = parso.load_grammar(version='3.10')
+    cdir = Path(os.path.join(root, 'shared_cache'))
+    bad = []
+    for r in range(rounds):
+        for i in range(len(MODULES)):
+            src = Path(os.path.join(root, 'two_m%d.py' % i))
+            pc.parser_cache.clear()
+            try:
+                m = g.parse(path=src, cache=True, cache_path=cdir)
+                if m.get_code() != MODULES[i]:
+                    bad.append('process %d round %d module %d: wrong tree' % (who, r, i))
+            except Exception as e:  # noqa
+                bad.append('process %d round %d module %d: %s: %s' % (who, r, i, type(e).__name__, e))
+            if (r + who) % 3 == 0:
+                try:                      # force a re-save next time: the entry vanishes under the other process
+                    os.remove(pc._get_hashed_path(g._hashed, src, cache_path=cdir))
+                except OSError:
+                    pass
+    return bad
+
+
+def part4(root, rounds):
+    import multiprocessing as mp
+    for i in range(len(MODULES)):
+        with open(os.path.join(root, 'two_m%d.py' % i), 'w') as f:
+            f.write(MODULES[i])
+    with mp.get_context('fork').Pool(2) as pool:
+        res = pool.map(_hammer, [(root, 0, rounds), (root, 1, rounds)])
+    fails = {}
+    for bad in res:
+        for b in bad[:3]:
+            fails.setdefault(('bnd:C17.two_processes', b.split(':')[1].strip()[:40]), dict(
+                ob='bnd:C17.two_processes', sig=b.split(':')[1].strip()[:40], detail=b,
+                inp='two processes, %d rounds over %d modules, shared cache directory' % (rounds, len(MODULES)), count=1))
+    return 2 * rounds * len(MODULES), fails
+
+
 def main():
     ap = argparse.ArgumentParser()
     ap.add_argument('--out', required=True)
     ap.add_argument('--repo', default='/repo')
+    ap.add_argument('--deep', action='store_true')
     a = ap.parse_args()
     t0 = time.time()
     root = tempfile.mkdtemp(prefix='pv_c17_')
+    DEEP[0] = a.deep
+    if a.deep:
+        try:            # a module of realistic size: its pickle is tens of kilobytes
+            with open(os.path.join(a.repo, 'parso', 'file_io.py')) as f:
+                MODULES.append(f.read())
+        except OSError:
+            pass
     try:
         e1, f1 = part1(root)
         e2, f2 = part2(root)
         e3, f3 = part3(root)
+        e4, f4 = part4(root, 120 if a.deep else 12)
     finally:
         shutil.rmtree(root, ignore_errors=True)
+    f3 = dict(f3, **f4)
+    e3 += e4
     fails = list(f1.values()) + list(f2.values()) + list(f3.values())
     out = dict(prop='C17', evaluations=e1 + e2 + e3, distinct_nontrivial=e1 + e2 + e3, failures=fails,
                samples=['truncation of the pickle of module 1 at offset 17', 'EOFError at call 0 of pickle.load during load'],
                wall_s=round(time.time() - t0, 2), scope=dict(corruptions=e1, faults=e2, modules=len(MODULES)),
-               rule='%d corrupted/truncated pickles (every truncation offset < 400, strided beyond, 9 corruption patterns, '
-                    '3 modules) and %d (scenario, primitive, exception, call index < 4) fault injections; every case is '
-                    'distinct' % (e1, e2), exhaustive=False)
+               rule='%d corrupted/truncated pickles (%s, 9 corruption patterns, %d modules), %d (scenario, primitive, exception, '
+                    'call index < 4) fault injections, and two processes parsing the same %d files through one cache directory for '
+                    '%d rounds each (entries removed under each other, saves and loads interleaving); every case is distinct'
+                    % (e1, 'every truncation offset, partial overwrites and rotations at every 97th offset' if a.deep else
+                       'every truncation offset < 400, strided beyond', len(MODULES), e2, len(MODULES), 120 if a.deep else 12),
+               exhaustive=False)
     with open(a.out, 'w') as f:
         json.dump(out, f)
 
